@@ -67,6 +67,14 @@ def _one_chunk(ctx, idx, chunk, label, monitor, harness_cmd, post):
     stats = post(raw, tr)
     res = tlc(ctx, monitor, workers=1, trace=tr, timeout=900, env={"JAVA_TOOL_OPTIONS": JAVA_OPTS_TRACE + " -Xmx3g"})
     tlc_must_pass(ctx, res, "%s on %s chunk %d" % (monitor, label, idx))
+    conf = None
+    if getattr(ctx, "conformance_spec", None):
+        fdtxml.add_fdtlens(tr)
+        cres = tlc(ctx, ctx.conformance_spec, workers=1, trace=tr, timeout=900, env={"JAVA_TOOL_OPTIONS": JAVA_OPTS_TRACE + " -Xmx3g"})
+        conf = {"ok": cres["ok"], "match": len(cres["tagged"].get("MATCH", [])), "unsupported": len(cres["tagged"].get("UNSUPPORTED", [])),
+                "drift": cres["tagged"].get("DRIFT", [])}
+        if not cres["ok"]:
+            conf["error"] = "\n".join(l for l in cres["stdout"].splitlines() if "rror" in l or "Attempted" in l)[:600]
     sample_lines = []
     with open(tr) as f:
         for i, line in enumerate(f):
@@ -76,6 +84,7 @@ def _one_chunk(ctx, idx, chunk, label, monitor, harness_cmd, post):
     for p in (inp, raw, tr):
         if os.environ.get("VERIF_KEEP_WORK") != "1":
             os.remove(p)
+    stats["conf"] = conf
     return res, stats, sample_lines
 
 
@@ -96,6 +105,19 @@ def run_behaviours(ctx, behs, label, monitor="Mon_Sender", harness_cmd="replay-s
             tot["behaviours"] += stats["behaviours"]
             for k, v in stats["kinds"].items():
                 tot["kinds"][k] = tot["kinds"].get(k, 0) + v
+            if stats.get("conf"):
+                c = ctx.conformance.setdefault(label, {"matched": 0, "unsupported": 0, "drifted": 0, "first_drifts": [], "errors": []})
+                c["matched"] += stats["conf"]["match"]
+                c["unsupported"] += stats["conf"]["unsupported"]
+                c["drifted"] += len(stats["conf"]["drift"])
+                for d in stats["conf"]["drift"][:3]:
+                    if len(c["first_drifts"]) < 5:
+                        dd = dict(d) if isinstance(d, dict) else {"raw": str(d)[:300]}
+                        b = behs[dd["beh"]] if isinstance(dd.get("beh"), int) and 0 <= dd["beh"] < len(behs) else None
+                        dd["behaviour"] = b
+                        c["first_drifts"].append(dd)
+                if stats["conf"].get("error"):
+                    c["errors"].append(stats["conf"]["error"])
             for v in res["viol"]:
                 v = dict(v)
                 bid = v.get("beh")
@@ -132,3 +154,61 @@ def replay_one(ctx, monitor="Mon_Sender", harness_cmd="replay-sender", post=fdtx
     print("replay verdict: %d violation(s) of %s" % (len(mine), ctx.prop))
     ctx.cleanup()
     return 1 if mine else 0
+
+
+# --------------------------------------------------------------------------------------------
+# model checking of the mechanism specification composed with the monitors (cached: depends on the spec only)
+
+MC_VARIANTS = {
+    "C08": [("b-every-block", "packet-after-close-object-flag")],
+    "C10": [],
+    "C11": [("no-fdt-gate", "object-packet-while-new-fdt-pending")],
+    "C12": [("count-off-by-one", "live-set-differs-from-is-added")],
+    "C13": [("lifo-queue", "start-order-not-fifo"), ("desc-queues", "lower-priority-packet-while-higher-priority-object-could-start")],
+    "C14": [("no-start-check", "start-before-transfer-start-time")],
+}
+
+
+def _mc_hash():
+    import hashlib
+    h = hashlib.md5()
+    for fn in ("Sender.tla", "SenderProps.tla", "MC_Sender.tla", "Partition.tla", "PartitionCore.tla", "VCommon.tla"):
+        h.update(open(os.path.join(SPEC, fn), "rb").read())
+    return h.hexdigest()[:12]
+
+
+def mc_sender(ctx, variant, maxops, expect=None):
+    """Runs MC_Sender (mechanism + monitors).  variant "ok": must complete without violation.
+    Otherwise the run must report the conjunct `expect` (vacuity guard of the monitors)."""
+    cdir = os.path.join(VERIF, "work", "cache")
+    os.makedirs(cdir, exist_ok=True)
+    cpath = os.path.join(cdir, "mc-sender-%s-%d-%s.json" % (variant, maxops, _mc_hash()))
+    if os.path.exists(cpath):
+        j = json.load(open(cpath))
+        j["cached"] = True
+    else:
+        cfg = ctx.path("mcs-%s.cfg" % variant)
+        open(cfg, "w").write('SPECIFICATION Spec\nCONSTANTS MaxOps = %d MaxClock = 4 Variant = "%s" CfgSet = {1, 2, 3, 4}\nINVARIANT ShowBad NoViolation\nCHECK_DEADLOCK FALSE\n' % (maxops, variant))
+        r = tlc(ctx, "MC_Sender", cfg=cfg, workers=8, mode="mc", timeout=3000)
+        bads = set()
+        for line in r["stdout"].splitlines():
+            if line.startswith('<<"BAD"') or line.startswith('<< "BAD"'):
+                bads.update(re.findall(r'"([a-z][a-z0-9-]+)"', line))
+        # multi-line BAD prints
+        for m_ in re.finditer(r'<<\s*"BAD",(.*?)>>\s*>>', r["stdout"], re.S):
+            bads.update(re.findall(r'"([a-z][a-z0-9-]+)"', m_.group(1)))
+        j = {"name": "MC_Sender[variant=%s,MaxOps=%d,4 cfgs]" % (variant, maxops), "states": r["distinct"], "generated": r["generated"],
+             "wall_s": r["wall_s"], "completed_without_violation": r["ok"], "reported": sorted(bads)}
+        if (variant == "ok" and r["ok"]) or (variant != "ok" and not r["ok"]):
+            json.dump(j, open(cpath, "w"))
+    ctx.mc.append(j)
+    if variant == "ok":
+        if not j["completed_without_violation"]:
+            # a design-level counterexample: reported as a tool-visible diagnostic, the verdict stays with the traces
+            ctx.notes["mc_sender_design_counterexample"] = j["reported"]
+    else:
+        j["expected"] = expect
+        j["monitor_not_vacuous"] = (not j["completed_without_violation"]) and (expect in j["reported"])
+        if not j["monitor_not_vacuous"]:
+            raise ToolError("self-test failed: broken mechanism variant %s did not make the monitor report %s (reported %s)" % (variant, expect, j["reported"]))
+    return j
